@@ -4,9 +4,9 @@ import Mathlib.Algebra.Order.Floor.Ring
 open PyrexR PyrexGen
 namespace PyrexR
 
-theorem irfftAt_scale (m : ℕ) (re im : ℕ → ℝ) (c : ℝ) (j : ℕ) :
-    irfftAt m (fun k => c * re k) (fun k => c * im k) j = c * irfftAt m re im j := by
-  unfold irfftAt
+theorem askIrfftAt_scale (m : ℕ) (re im : ℕ → ℝ) (c : ℝ) (j : ℕ) :
+    askIrfftAt m (fun k => c * re k) (fun k => c * im k) j = c * askIrfftAt m re im j := by
+  unfold askIrfftAt
   simp only []
   rw [← mul_div_assoc, mul_add, mul_add, ← sumN_mul_left]
   congr 2
@@ -18,14 +18,14 @@ theorem irfftAt_scale (m : ℕ) (re im : ℕ → ℝ) (c : ℝ) (j : ℕ) :
 
 theorem avzCentred_length (N : ℕ) (dt : ℝ) (spec : ℕ → ℝ) : (avzCentred N dt spec).length = 2 * (N / 2) := by
   unfold avzCentred
-  simp only [roll_length, tab_length]
+  simp only [askRoll_length, tab_length]
   omega
 
 theorem avzCentred_scale (N : ℕ) (dt c : ℝ) (spec : ℕ → ℝ) :
     avzCentred N dt (fun k => c * spec k) = (avzCentred N dt spec).map (fun v => c * v) := by
   unfold avzCentred
   simp only []
-  rw [← roll_map_mul, tab_map]
+  rw [← askRoll_map_mul, tab_map]
   congr 1
   apply tab_congr
   intro j _
@@ -33,7 +33,7 @@ theorem avzCentred_scale (N : ℕ) (dt c : ℝ) (spec : ℕ → ℝ) :
         funext (fun k => by ring),
       show (fun k => c * spec k * Rsin (0.5 * Rpi)) = (fun k => c * (spec k * Rsin (0.5 * Rpi))) from
         funext (fun k => by ring),
-      irfftAt_scale]
+      askIrfftAt_scale]
   ring
 
 theorem avzCentred_congr (N : ℕ) (dt : ℝ) (s1 s2 : ℕ → ℝ) (h : ∀ k, s1 k = s2 k) :
@@ -45,7 +45,7 @@ theorem place_tail_scale (N L a b : ℕ) (p : List ℝ) (c : ℝ) :
       else p.map (fun v => c * v))
     = (if L + 1 = N then p ++ [2 * p.getD a 0 - p.getD b 0] else p).map (fun v => c * v) := by
   split_ifs
-  · rw [List.map_append, getD_map_mul, getD_map_mul]
+  · rw [List.map_append, ask_getD_map_mul, ask_getD_map_mul]
     congr 1
     simp only [List.map_cons, List.map_nil]
     congr 1
@@ -57,12 +57,12 @@ theorem avzPlace_scale (N : ℕ) (trace : List ℝ) (x c : ℝ) :
   unfold avzPlace
   simp only [List.length_map]
   have hplaced : (if (Rfloor x - ((trace.length / 2 : ℕ) : ℤ)).natAbs > trace.length then zerosL trace.length
-        else (roll (trace.map (fun v => c * v) ++ zerosL trace.length) (Rfloor x - ((trace.length / 2 : ℕ) : ℤ))).take trace.length)
+        else (askRoll (trace.map (fun v => c * v) ++ zerosL trace.length) (Rfloor x - ((trace.length / 2 : ℕ) : ℤ))).take trace.length)
       = (if (Rfloor x - ((trace.length / 2 : ℕ) : ℤ)).natAbs > trace.length then zerosL trace.length
-        else (roll (trace ++ zerosL trace.length) (Rfloor x - ((trace.length / 2 : ℕ) : ℤ))).take trace.length).map (fun v => c * v) := by
+        else (askRoll (trace ++ zerosL trace.length) (Rfloor x - ((trace.length / 2 : ℕ) : ℤ))).take trace.length).map (fun v => c * v) := by
     split_ifs
     · rw [zerosL_map_mul]
-    · rw [List.map_take, ← roll_map_mul, List.map_append, zerosL_map_mul]
+    · rw [List.map_take, ← askRoll_map_mul, List.map_append, zerosL_map_mul]
   rw [hplaced]
   exact place_tail_scale _ _ _ _ _ _
 
